@@ -137,7 +137,7 @@ Uncommitted(k) == IF k = 0 THEN <<>>
 Proj == [locs |-> locs', cacheQ |-> cacheQ', maxTs |-> maxTs', dbase |-> dbase', pending |-> pending']
 Can == MaxOps = 0 \/ Len(hist) < MaxOps
 \* MaxOps = 0 (exhaustive checker): only the last call is kept (for the action properties)
-Log(r) == hist' = IF MaxOps = 0 THEN <<r>> ELSE Append(hist, r @@ [m |-> Proj, tsOf |-> tsOf, rootTh |-> nth[1]])
+Log(r) == hist' = IF MaxOps = 0 THEN <<r>> ELSE Append(hist, r @@ [m |-> Proj, tsOf |-> tsOf, rootTh |-> nth[1], group |-> Group])
 
 Init == /\ tsOf \in [Ids -> 1..MaxTs]
         \* the root tracker of txIDManager.NewLogger(group, 0, 0): timestamp 0, current threshold
